@@ -881,6 +881,11 @@ fn run_table(ev: &mut Ev, model: &mut TModel, srv: &mut ImplServer, program: &Pr
             let s = sem[x * c + y];
             ev.hit(&format!("sem:{s}"));
             let fo = classes.get(a) == Some(&'f') && classes.get(b) == Some(&'f');
+            // recursive first-order (closed, no function / process component): compat_sound_rec_fo
+            let rfo = matches!(classes.get(a), Some('f') | Some('r')) && matches!(classes.get(b), Some('f') | Some('r'));
+            if rfo && !fo && i_compat[px * k + py] == 't' {
+                ev.hit("oracle:compat-true-on-recursive-first-order-pair");
+            }
             // reflexivity
             if a == b && i_compat[px * k + py] == 'f' {
                 report(ev, "compat=not-reflexive", &format!("is_compatible({0}, {0}) = false", tbl.show(a)), replay_json(&tbl, &[a], json!({"op": "is_compatible"})), true);
@@ -893,6 +898,9 @@ fn run_table(ev: &mut Ev, model: &mut TModel, srv: &mut ImplServer, program: &Pr
                 ev.hit("oracle:compat-unsound");
                 let sig = if fo {
                     format!("compat-unsound:{cls}")
+                } else if rfo {
+                    // the theorem compat_sound_rec_fo says this cannot happen to the model of the code
+                    format!("compat-unsound:{cls} (recursive first-order)")
                 } else if mech_id_sharing(&tbl, model, &mut names, &[(a, b)]) {
                     "compat=assumption-reused-under-other-enclosing-types".to_string()
                 } else {
